@@ -105,7 +105,7 @@ def extra(rng, tier):
                 flat = gen.vals_q(rng, n * L)
                 q = rng.choice(gen.queries_q(rng, xs, 8, ext=ext))
             else:
-                xs = gen.axis_f(rng, n, rng.choice(["uniform", "geometric", "random", "evenish", "even", "even"]))
+                xs = gen.axis_f(rng, n, rng.choice(["uniform", "geometric", "random", "evenish", "even", "even", "indexlike"]))
                 flat = [rng.uniform(-9, 9) for _ in range(n * L)]
                 span = xs[-1] - xs[0]
                 kq = xs[rng.randrange(n)]
@@ -197,6 +197,48 @@ def extra(rng, tier):
                     lines.append(i2_line(S, xa, xs, [3, n], f2, ext, e_array(S, [1], [qa], [q]), ylay=lx, dlay=ld))
                     var.append(len(lines) - 1)
             groups.append((base, var))
+    # several queries through ONE interpolator in one batch (seed C20-r6m1: a "previous interval" hint with a closed upper bound
+    # answers a query that is exactly a knot from the interval of the preceding query): element j of the batch must not change when every
+    # row outside the bracket of query j alone is poisoned — the other elements of the batch may change, they are not compared
+    elem_groups = []
+    for _ in range(max(6, reps // 5)):
+        S = rng.choice(["F", "F", "Q"])
+        ext = rng.random() < 0.3
+        n = rng.choice([4, 5, 7, 10])
+        lx, ld = rng.choice(gen.LAYS_1D), rng.choice(gen.LAYS_ND)
+        xs = gen.axis_q(rng, n) if S == "Q" else gen.axis_f(rng, n, rng.choice(["uniform", "random", "geometric", "even"]))
+        mid = lambda a, b: (a + b) / 2
+        k = rng.randrange(n - 2)
+        qs = rng.choice([[mid(xs[k], xs[k + 1]), xs[k + 1]], [xs[k], xs[k + 1], xs[k + 2]], [mid(xs[k + 1], xs[k + 2]), xs[k + 1], xs[k]],
+                         [xs[k + 1], mid(xs[k], xs[k + 1]), xs[k + 1]]])
+        two = rng.random() < 0.35
+        if not two:
+            flat = gen.vals_q(rng, n) if S == "Q" else [rng.uniform(-9, 9) for _ in range(n)]
+            base = len(lines)
+            lines.append(i1_line(S, xs, [n], flat, ("lin", ext), e_array(S, [len(qs)], qs, qtag=rng.choice(["sta", "dyn"])), xlay=lx, dlay=ld))
+            for j, q in enumerate(qs):
+                i = lin_bracket(xs, q)
+                f2 = list(flat)
+                for r in range(n):
+                    if r not in (i, i + 1):
+                        f2[r:r + 1] = poison_vals(rng, S, 1)
+                lines.append(i1_line(S, xs, [n], f2, ("lin", ext), e_array(S, [len(qs)], qs, qtag=rng.choice(["sta", "dyn"])), xlay=lx, dlay=ld))
+                elem_groups.append((base, len(lines) - 1, j, len(qs)))
+        else:
+            ya = gen.axis_q(rng, 3) if S == "Q" else gen.axis_f(rng, 3, "uniform")
+            qy = [mid(ya[0], ya[1])] * len(qs)
+            flat = gen.vals_q(rng, 3 * n) if S == "Q" else [rng.uniform(-9, 9) for _ in range(3 * n)]
+            base = len(lines)
+            lines.append(i2_line(S, xs, ya, [n, 3], flat, ext, e_array(S, [len(qs)], qs, qy, qtag=rng.choice(["sta", "dyn"])), xlay=lx, dlay=ld))
+            for j, q in enumerate(qs):
+                i = lin_bracket(xs, q)
+                f2 = list(flat)
+                for a in range(n):
+                    for b in range(3):
+                        if not (a in (i, i + 1) and b in (0, 1)):
+                            f2[a * 3 + b:a * 3 + b + 1] = poison_vals(rng, S, 1)
+                lines.append(i2_line(S, xs, ya, [n, 3], f2, ext, e_array(S, [len(qs)], qs, qy, qtag=rng.choice(["sta", "dyn"])), xlay=lx, dlay=ld))
+                elem_groups.append((base, len(lines) - 1, j, len(qs)))
     outs = vlib.run_impl_only(ID, lines, tag="extra")
     fails = []
     changed = 0
@@ -207,4 +249,12 @@ def extra(rng, tier):
             if outs[v] != outs[base] or not outs[base].startswith("ok"):
                 fails.append({"line": lines[v], "impl": outs[v][:200],
                               "required": f"result must be identical to that of the unmodified case `{lines[base][:300]}`: {outs[base][:200]}"})
-    return {"evaluations": len(lines), "failures": fails, "hist": {"groups": len(groups), "changed_variants": changed}}
+    for base, v, j, nq in elem_groups:
+        rb, rv = Result(outs[base]), Result(outs[v])
+        changed += 1
+        if rb.kind != "ok" or rv.kind != "ok" or len(rb.vals) != nq or len(rv.vals) != nq:
+            fails.append({"line": lines[v], "impl": outs[v][:200], "required": f"batch must be answered like the unmodified case `{lines[base][:300]}`: {outs[base][:200]}"})
+        elif rb.vals[j] != rv.vals[j]:
+            fails.append({"line": lines[v], "impl": outs[v][:200],
+                          "required": f"element {j} of the batch must be identical to that of the unmodified case `{lines[base][:300]}` ({rb.vals[j]}): only rows outside its own bracket were changed"})
+    return {"evaluations": len(lines), "failures": fails, "hist": {"groups": len(groups), "changed_variants": changed, "per_element_variants": len(elem_groups)}}
